@@ -7,7 +7,7 @@ from ..ref import ec, wire
 ID = "C04"
 RULE = (
     "cases: histories over the mutation API (add/prepend/insert/set input and output, set_version, set_nlocktime, clone) interleaved with sighash/sign calls of "
-    "every cache-filling flag class, executed on ONE live Transaction; bounded-exhaustive over a 16-symbol alphabet up to depth 3 (quick) / 4 (thorough) plus long random histories. "
+    "every cache-filling flag class, executed on ONE live Transaction; bounded-exhaustive over a 21-symbol alphabet (incl. replacements that change exactly one field: sequence, vout, unlocking script, output value, output script) up to depth 3 (quick) / 4 (thorough) plus long random histories. "
     "After EVERY step three probing sighash calls run on a clone of the live object and on a fresh parse of its serialisation; every sighash/sign step is also "
     "repeated on a fresh parse. non-trivial = distinct history containing >=1 mutator after >=1 cache-filling call"
 )
@@ -22,6 +22,8 @@ MIN_HITS = {
 ALPHABET = [
     "add_input", "prepend_input", "insert_input", "set_input", "add_output", "prepend_output", "insert_output", "set_output",
     "set_version", "set_nlocktime", "clone", "sh41", "sh42", "shc1", "sh43", "sh01",
+    # replacements that change exactly ONE field of the existing element (a cache keyed on "did X change" must notice each of them)
+    "set_input_seq", "set_input_vout", "set_input_script", "set_output_value", "set_output_script",
 ]
 FILLERS = {"sh41", "sh42", "shc1", "sh43"}
 PROBES = [
@@ -41,70 +43,122 @@ def tout(tag):
     return {"value": int.from_bytes(h[:8], "big") >> (tag % 40), "script": "76a914" + h[:20].hex() + "88ac" if tag % 2 else "6a"}
 
 
-def step_of(sym, pos, n_in, n_out, r=None):
-    """literal step for alphabet symbol `sym` at history position `pos` given the current input/output counts; returns (step, n_in', n_out')"""
+class Model:
+    """python-side copy of the live transaction's inputs/outputs, so that one-field replacements can be generated"""
+
+    def __init__(self, ins, outs):
+        self.ins = [dict(i) for i in ins]
+        self.outs = [dict(o) for o in outs]
+
+
+def step_of(sym, pos, model, r=None):
+    """literal step for alphabet symbol `sym` at history position `pos` given the current model; returns the step (or None) and updates the model"""
     t = pos * 31 + 7
-    if sym == "add_input":
-        return {"op": sym, "in": tin(t)}, n_in + 1, n_out
-    if sym == "prepend_input":
-        return {"op": sym, "in": tin(t)}, n_in + 1, n_out
-    if sym == "insert_input":
-        return {"op": sym, "i": min(1, n_in) if r is None else r.randrange(n_in + 1), "in": tin(t)}, n_in + 1, n_out
+    n_in, n_out = len(model.ins), len(model.outs)
+    pick = (lambda n: (pos % n) if r is None else r.randrange(n))
+    if sym in ("add_input", "prepend_input", "insert_input"):
+        i = tin(t)
+        if sym == "add_input":
+            model.ins.append(i)
+            return {"op": sym, "in": i}
+        if sym == "prepend_input":
+            model.ins.insert(0, i)
+            return {"op": sym, "in": i}
+        at = min(1, n_in) if r is None else r.randrange(n_in + 1)
+        model.ins.insert(at, i)
+        return {"op": sym, "i": at, "in": i}
     if sym == "set_input":
         if n_in == 0:
-            return None, n_in, n_out
-        return {"op": sym, "i": (pos % n_in) if r is None else r.randrange(n_in), "in": tin(t)}, n_in, n_out
-    if sym == "add_output":
-        return {"op": sym, "out": tout(t)}, n_in, n_out + 1
-    if sym == "prepend_output":
-        return {"op": sym, "out": tout(t)}, n_in, n_out + 1
-    if sym == "insert_output":
-        return {"op": sym, "i": min(1, n_out) if r is None else r.randrange(n_out + 1), "out": tout(t)}, n_in, n_out + 1
+            return None
+        at = pick(n_in)
+        model.ins[at] = tin(t)
+        return {"op": sym, "i": at, "in": model.ins[at]}
+    if sym in ("set_input_seq", "set_input_vout", "set_input_script"):
+        if n_in == 0:
+            return None
+        at = pick(n_in)
+        i = dict(model.ins[at])
+        if sym == "set_input_seq":
+            i["seq"] = (i["seq"] + 0x01010101 + pos) & 0xFFFFFFFF
+        elif sym == "set_input_vout":
+            i["vout"] = (i["vout"] + 1 + pos) & 0xFFFFFFFF
+        else:
+            i["script"] = i["script"] + "51"
+        model.ins[at] = i
+        return {"op": "set_input", "i": at, "in": i}
+    if sym in ("add_output", "prepend_output", "insert_output"):
+        o = tout(t)
+        if sym == "add_output":
+            model.outs.append(o)
+            return {"op": sym, "out": o}
+        if sym == "prepend_output":
+            model.outs.insert(0, o)
+            return {"op": sym, "out": o}
+        at = min(1, n_out) if r is None else r.randrange(n_out + 1)
+        model.outs.insert(at, o)
+        return {"op": sym, "i": at, "out": o}
     if sym == "set_output":
         if n_out == 0:
-            return None, n_in, n_out
-        return {"op": sym, "i": (pos % n_out) if r is None else r.randrange(n_out), "out": tout(t)}, n_in, n_out
+            return None
+        at = pick(n_out)
+        model.outs[at] = tout(t)
+        return {"op": sym, "i": at, "out": model.outs[at]}
+    if sym in ("set_output_value", "set_output_script"):
+        if n_out == 0:
+            return None
+        at = pick(n_out)
+        o = dict(model.outs[at])
+        if sym == "set_output_value":
+            o["value"] = (o["value"] + 1 + pos) & 0xFFFFFFFFFFFFFFFF
+        else:
+            o["script"] = o["script"] + "61"
+        model.outs[at] = o
+        return {"op": "set_output", "i": at, "out": o}
     if sym == "set_version":
-        return {"op": sym, "v": 0x01020300 + pos, "adopt": bool(pos & 1)}, n_in, n_out
+        return {"op": sym, "v": 0x01020300 + pos, "adopt": bool(pos & 1)}
     if sym == "set_nlocktime":
-        return {"op": sym, "v": 0x0A0B0C00 + pos, "adopt": bool(pos & 1)}, n_in, n_out
+        return {"op": sym, "v": 0x0A0B0C00 + pos, "adopt": bool(pos & 1)}
     if sym == "clone":
-        return {"op": "clone"}, n_in, n_out
+        return {"op": "clone"}
     if sym.startswith("sh") or sym.startswith("sg"):
         if n_in == 0:
-            return None, n_in, n_out
+            return None
         flag = int(sym[2:], 16)
-        idx = pos % n_in if r is None else r.randrange(n_in)
+        idx = pick(n_in)
         if (flag & 0x1F) == 3 and idx >= n_out:
             if n_out == 0:
-                return None, n_in, n_out
+                return None
             idx = min(idx, n_out - 1)
             if idx >= n_in:
-                return None, n_in, n_out
+                return None
         st = {"op": "sighash", "flag": flag, "idx": idx, "script": "76a914" + "11" * 20 + "88ac", "value": 1000 + pos}
         if sym.startswith("sg"):
             st["op"] = "sign"
             st["key"] = (0x1000 + pos).to_bytes(32, "big").hex()
             st["compressed"] = bool(pos & 1)
-        return st, n_in, n_out
+        return st
     raise ValueError(sym)
+
+
+INIT_INS = [{"txid": tin(900)["txid"], "vout": 3, "script": "", "seq": 0xA1B2C3D4}, {"txid": tin(901)["txid"], "vout": 0, "script": "51", "seq": 0xFFFFFFFE}]
+INIT_OUTS = [{"value": 5000, "script": "76a914" + "22" * 20 + "88ac"}, {"value": 0x0102030405060708, "script": "6a"}]
 
 
 def init_tx():
     tx = {
         "version": 2,
-        "ins": [{"txid_wire": bytes.fromhex(tin(900)["txid"])[::-1], "vout": 3, "script": b"", "seq": 0xA1B2C3D4}, {"txid_wire": bytes.fromhex(tin(901)["txid"])[::-1], "vout": 0, "script": b"\x51", "seq": 0xFFFFFFFE}],
-        "outs": [{"value": 5000, "script": bytes.fromhex("76a914" + "22" * 20 + "88ac")}, {"value": 0x0102030405060708, "script": b"\x6a"}],
+        "ins": [{"txid_wire": bytes.fromhex(i["txid"])[::-1], "vout": i["vout"], "script": bytes.fromhex(i["script"]), "seq": i["seq"]} for i in INIT_INS],
+        "outs": [{"value": o["value"], "script": bytes.fromhex(o["script"])} for o in INIT_OUTS],
         "locktime": 0x11223344,
     }
     return wire.tx_encode(tx).hex()
 
 
-def build_history(symbols, r=None):
-    n_in, n_out = 2, 2
+def build_history(symbols, r=None, empty=False):
+    model = Model([], []) if empty else Model(INIT_INS, INIT_OUTS)
     steps = []
     for pos, s in enumerate(symbols):
-        st, n_in, n_out = step_of(s, pos, n_in, n_out, r)
+        st = step_of(s, pos, model, r)
         if st is not None:
             steps.append(st)
     return steps
@@ -128,25 +182,19 @@ def cases(ctx):
     if S == 0:
         ctx.exhaustive.append("all histories of length 1..%d over the %d-symbol alphabet %s from a 2-in/2-out transaction, 3 probes after every step" % (depth, len(ALPHABET), ALPHABET))
     # long random histories, including signing steps and batched adds
-    n = 40 if thorough else 3
+    n = 150 if thorough else 3
     syms_all = ALPHABET + ["sg41", "sg43", "sgc3", "sg01", "sh81", "sh02", "sh03", "shc2", "shc3"]
     for _ in range(n):
         L = r.choice([50, 100, 200, 400, 1000]) if thorough else r.choice([50, 120, 300])
         # bias towards the replace operations and cache fillers
-        w = [3 if s in ("set_input", "set_output") else 2 if s in FILLERS else 1 for s in syms_all]
+        w = [3 if s.startswith(("set_input", "set_output")) else 2 if s in FILLERS else 1 for s in syms_all]
         syms = r.choices(syms_all, weights=w, k=L)
         yield {"k": "hist", "init": init, "steps": build_history(syms, r), "probes": PROBES if L <= 300 else PROBES[:1], "tag": "long"}
     # histories that start from an empty transaction built only through the API
-    for _ in range(60 if thorough else 6):
+    for _ in range(300 if thorough else 6):
         L = r.choice([6, 10, 20])
         syms = ["add_input", "add_output"] + r.choices(syms_all, k=L)
-        steps = []
-        n_in = n_out = 0
-        for pos, s in enumerate(syms):
-            st, n_in, n_out = step_of(s, pos, n_in, n_out, r)
-            if st is not None:
-                steps.append(st)
-        yield {"k": "hist", "init": None, "steps": steps, "probes": PROBES, "tag": "from_empty"}
+        yield {"k": "hist", "init": None, "steps": build_history(syms, r, empty=True), "probes": PROBES, "tag": "from_empty"}
 
 
 def judge(ctx, case):
